@@ -79,9 +79,11 @@ def adjust : Nat → Nat → Str → Nat × Nat
 
 /-! ## 1. `readfile` -/
 
-/-- `Stream::readChar` newline handling: `\r\n` and a lone `\r` are read as `\n` -/
+/-- `Stream::readChar` newline handling: `\r\n` and a lone `\r` are read as `\n`; a lone `\r` as the very
+    last byte is lost (the look-ahead `get()` hits EOF, the stream goes bad before the `\n` is used) -/
 def normCR : List Char → List Char
   | [] => []
+  | ['\r'] => []
   | '\r' :: '\n' :: r => '\n' :: normCR r
   | '\r' :: r => '\n' :: normCR r
   | c :: r => c :: normCR r
